@@ -209,6 +209,11 @@ func mkToken(rnd *rand.Rand, mode string, i int) []byte {
 			t[1] = byte(i >> 8)
 		}
 		return t
+	case "zero-prefix":
+		// tokens that differ only in their length: k zero bytes followed by one value byte
+		t := make([]byte, 1+i%8)
+		t[len(t)-1] = byte(1 + i/8)
+		return t
 	case "shared-prefix":
 		return []byte{0xab, 0xcd, 0xef, 0x01, 0x23, byte(i >> 8), byte(i)}
 	}
@@ -459,7 +464,16 @@ func collision(rec *vr.Rec, kind string, n int, rnd *rand.Rand) {
 			rec.Inconclusive("no colliding 8-byte token found")
 			continue
 		}
-		c := map[string]any{"transport": kind, "token7": fmt.Sprintf("%x", t7), "token8": fmt.Sprintf("%x", t8), "note": "both tokens have the same CRC-64/ISO"}
+		sigName := "crc64-collision"
+		note := "both tokens have the same CRC-64/ISO"
+		if it%2 == 1 {
+			// second family: tokens that differ only in length (leading zero bytes); distinct keys on the unchanged tree
+			t7 = []byte{byte(1 + rnd.Intn(255))}
+			t8 = append(make([]byte, 1+rnd.Intn(7)), t7[0])
+			sigName = "length-only-difference"
+			note = "tokens differ only by leading zero bytes"
+		}
+		c := map[string]any{"transport": kind, "token_waiting": fmt.Sprintf("%x", t7), "token_cancelled": fmt.Sprintf("%x", t8), "note": note}
 		e := newEnv(kind, false, 16)
 		// request 1 with the 8-byte token, cancelled before the peer answers
 		ctx1, cancel1 := context.WithCancel(context.Background())
@@ -524,14 +538,14 @@ func collision(rec *vr.Rec, kind string, n int, rnd *rand.Rand) {
 		rec.Eval(fmt.Sprintf("collision|%s|%d", kind, it%4))
 		rec.Count("crc64_collision_cases", 1)
 		if r.err == nil && (!bytes.Equal(r.tok, t7) || !bytes.Equal(r.body, produce(t7, []byte("second")))) {
-			rec.Violation("C03/crc64-collision/stale-response-delivered", fmt.Sprintf("request with 7-byte token %x returned the late response of an earlier, cancelled request with the different 8-byte token %x (same CRC-64)", t7, t8), c)
+			rec.Violation("C03/"+sigName+"/stale-response-delivered", fmt.Sprintf("request with token %x returned the late response of an earlier, cancelled request with the different token %x (%s)", t7, t8, note), c)
 		}
 		e.cc.Close()
 	}
 }
 
 func TestRun(t *testing.T) {
-	rec := vr.New("C03", "histories: 1..32 (quick) / 1..128 (thorough) callers released together on one real udp (in-memory session) or tcp (scripted net.Conn) connection, block-wise on/off, receive-queue sizes 0/1/16, tokens {library-generated 8-byte, caller-chosen 1..8 bytes, shared 5-byte prefix}; the scripted peer answers piggybacked / piggybacked twice / empty ACK + separate CON or NON / separate twice, holds answers back and releases them permuted; equal-token races from a barrier; 7-byte vs CRC-64-colliding 8-byte token with a late response to a cancelled request. Distinct = distinct history tuples (transport, block-wise, queue, callers, token mode, PRNG policy stream).")
+	rec := vr.New("C03", "histories: 1..32 (quick) / 1..128 (thorough) callers released together on one real udp (in-memory session) or tcp (scripted net.Conn) connection, block-wise on/off, receive-queue sizes 0/1/16, tokens {library-generated 8-byte, caller-chosen 1..8 bytes, shared 5-byte prefix, zero-prefixed families that differ only in length}; the scripted peer answers piggybacked / piggybacked twice / empty ACK + separate CON or NON / separate twice, holds answers back and releases them permuted; equal-token races from a barrier; 7-byte vs CRC-64-colliding 8-byte token with a late response to a cancelled request. Distinct = distinct history tuples (transport, block-wise, queue, callers, token mode, PRNG policy stream).")
 	defer rec.Flush(true)
 	seed := vr.Seed()
 	rnd := rand.New(rand.NewSource(seed))
@@ -543,7 +557,7 @@ func TestRun(t *testing.T) {
 			Blockwise: i%4 < 2,
 			Queue:     []int{0, 1, 16}[i%3],
 			Callers:   1 + rnd.Intn(maxCallers),
-			Tokens:    []string{"library", "short", "shared-prefix"}[rnd.Intn(3)],
+			Tokens:    []string{"library", "short", "shared-prefix", "zero-prefix"}[rnd.Intn(4)],
 			Policy:    fmt.Sprintf("prng-%d", i),
 		})
 	}
